@@ -69,6 +69,8 @@ def extract_d_mat(M: Model, c: ClassInfo) -> KernelForm:
             elif isinstance(v, ast.Call) and dotted(v.func) in ("np.float32", "float") and len(v.args) == 1 and \
                     isinstance(v.args[0], ast.Attribute) and norm(v.args[0].value) == sn:
                 env[nm] = _field_rat(v.args[0].attr)
+            elif isinstance(v, ast.Call) and dotted(v.func) in ("np.float32", "float") and len(v.args) == 1 and isinstance(v.args[0], ast.Constant):
+                env[nm] = Rat.const(__import__("fractions").Fraction(str(v.args[0].value)))
             else:
                 raise Unsupported(f"capture `{norm(s)}` not understood")
     ps = k.params
